@@ -15,6 +15,7 @@ Shape make_shape(const std::string& id) {
     else if (id == "S8") { add("A", 1, 2); add("B", 1, 2); add("C", 1, 1); }
     else if (id == "S9") { add("A", 1, 2); add("B", 1, 2); add("C", 1, 2); }
     else if (id == "S10") { add("A", 3, 2); }
+    else if (id == "S11") { add("A", 2, 1); add("B", 2, 1); }     // two spinless two-orbital sites: inter-site inter-orbital hopping
     else throw std::runtime_error("unknown shape " + id);
     return s;
 }
@@ -150,6 +151,7 @@ std::vector<Gen> alphabet(const Shape& sh, const AlphabetOpts& op) {
         const SiteSpec& a = sh.sites[i]; const SiteSpec& b = sh.sites[j];
         if (a.orb == b.orb && a.spin == b.spin) for (double v : V) { Gen g; g.kind = HOP_ALL; g.l1 = a.label; g.l2 = b.label; g.v[0] = v; push(g); }
         else for (double v : V) { Gen g; g.kind = HOP_OOS; g.l1 = a.label; g.l2 = b.label; g.v[0] = v; g.o1 = g.o2 = 0; g.s1 = 0; push(g); }
+        if (a.orb >= 2 && b.orb >= 2) for (int oo = 0; oo < 2; ++oo) { Gen g; g.kind = HOP_OO; g.l1 = a.label; g.l2 = b.label; g.v[0] = V[oo % V.size()]; g.o1 = oo; g.o2 = 1 - oo; if (a.spin == b.spin) push(g); }   // inter-site AND inter-orbital
         if (a.spin >= 2 && b.spin >= 2) { Gen g; g.kind = HOP_OOSS; g.l1 = a.label; g.l2 = b.label; g.v[0] = V[0]; g.o1 = g.o2 = 0; g.s1 = 0; g.s2 = 1; push(g); }   // spin-flip hopping
         if (a.spin == 2 && b.spin == 2 && a.orb == b.orb) {
             for (double v : V) { if (!op.rich && v != V[0]) continue; Gen g; g.kind = SZSZ; g.l1 = a.label; g.l2 = b.label; g.v[0] = v; push(g); }
